@@ -49,17 +49,15 @@ Proof. intros H x. unfold store_nb. rewrite H. reflexivity. Qed.
 Lemma store_phases23 (m m1 : cmem) (c1 : cells) a v :
   frame m m1 -> (forall x, load_cell m1 x = c1 x) ->
   (forall b, c1 a = Some (CRef b) ->
-     exists bv, c1 b = Some (CVal bv) /\ wfv bv /\ 0 <= b /\ b < a < b + vk bv /\ b + vk bv < 2^64) ->
+     exists bv, c1 b = Some (CVal bv) /\ wfv bv /\ 0 <= b /\ b < a < b + vk bv /\ b + vk bv <= 2^64) ->
   1 <= vk v -> 0 <= a -> a + vk v <= 2^64 ->
   exists m',
     (vtw2 <- match load_cell m1 a with
              | Some (CRef b) =>
                  c <- res_of_option (load_cell m1 b) ;;
                  bv <- match c with CVal bv => Ok bv | CRef _ => Panic end ;;
-                 far <- uadd b (v_bits COps bv / 8) ;;
-                 d <- usub far a ;;
-                 ob <- umul d 8 ;;
-                 lb <- usub (v_bits COps bv) ob ;;
+                 d <- usub (b + v_bits COps bv / 8) a ;;
+                 lb <- usub (v_bits COps bv) ((d * 8) mod USIZE) ;;
                  r <- load COps m1 b lb ;;
                  Ok (Some (b, r))
              | _ => Ok None
@@ -85,8 +83,9 @@ Proof.
   - destruct (H2 b eq_refl) as (bv & Eb & Hbw & Hb0 & Hr & Hb64). rewrite (L1 b), Eb. cbn [res_of_option bind].
     pose proof Hbw as (Hbk & Hbbits & Hb63 & Hbr). cbn [v_bits COps]. rewrite Hbbits.
     replace (8 * vk bv / 8) with (vk bv) by (rewrite Z.mul_comm, Z.div_mul; lia).
-    rewrite uadd_ok by lia. cbn [bind]. rewrite usub_ok by lia. cbn [bind].
-    rewrite umul_ok by lia. cbn [bind]. rewrite usub_ok by lia. cbn [bind].
+    rewrite usub_ok by lia. cbn [bind].
+    rewrite (Z.mod_small ((b + vk bv - a) * 8)) by (unfold USIZE; lia).
+    rewrite usub_ok by lia. cbn [bind].
     replace (8 * vk bv - (b + vk bv - a) * 8) with (8 * (a - b)) by lia.
     rewrite (load_prefix m1 b bv (a - b)); [|rewrite L1; exact Eb|exact Hbw|lia].
     cbn [bind res_of_option]. rewrite Ee.
@@ -101,8 +100,9 @@ Proof.
     intros x. rewrite L'. apply store_nb_ext, L1.
 Qed.
 
-(* store on a memory satisfying the invariant: no error, no panic, and exactly the cell-level store *)
-Theorem store_ok (m : cmem) a v : InvM m -> back_ok (m_back m) -> wfv v -> 0 <= a -> a + vk v < 2^64 ->
+(* store on a memory satisfying the invariant: no error, no panic, and exactly the cell-level store;
+   the write may end exactly at 2^64 *)
+Theorem store_ok (m : cmem) a v : InvM m -> back_ok (m_back m) -> wfv v -> 0 <= a -> a + vk v <= 2^64 ->
   exists m', Paged.store COps m a v = Ok m' /\ frame m m' /\
      forall x, load_cell m' x = cstore (m_end m) (load_cell m) a v x.
 Proof.
@@ -112,42 +112,72 @@ Proof.
   replace (8 * vk v mod 8) with 0 by lia. change (0 =? 0) with true.
   destruct (Z.eqb_spec (8 * vk v) 0); [lia|]. cbn [negb orb].
   replace (8 * vk v / 8) with (vk v) by (rewrite Z.mul_comm, Z.div_mul; lia).
-  rewrite uadd_ok by lia. cbn [bind]. unfold cstore. set (after := a + vk v) in *.
+  unfold cstore. set (after := a + vk v) in *.
+  destruct (Z.ltb_spec USIZE after) as [Hw|_]; [unfold USIZE in Hw; lia|].
   (* what phase 2 needs to know about the cells after phase 1 *)
   assert (H2: forall (c1 : cells), c1 a = load_cell m a ->
               (forall b, b < a -> c1 b = load_cell m b) ->
               forall b, c1 a = Some (CRef b) ->
-              exists bv, c1 b = Some (CVal bv) /\ wfv bv /\ 0 <= b /\ b < a < b + vk bv /\ b + vk bv < 2^64).
+              exists bv, c1 b = Some (CVal bv) /\ wfv bv /\ 0 <= b /\ b < a < b + vk bv /\ b + vk bv <= 2^64).
   { intros c1 Ea Elt b E. rewrite Ea in E. destruct (I1 a b E) as (bv & Eb & Hr).
     destruct (InvM_range m HM b bv Eb). destruct (I2 b bv Eb) as [Hbw _].
     exists bv. rewrite Elt by lia. refine (conj Eb (conj Hbw _)). lia. }
-  destruct (load_cell m after) as [[w|b]|] eqn:Eaf.
-  - cbn [bind].
+  assert (SIMPLE: load_cell m after = None \/ (exists w, load_cell m after = Some (CVal w)) ->
+          exists m', (m1 <- Ok m ;;
+                      vtw2 <- match load_cell m1 a with
+                              | Some (CRef b) =>
+                                  c <- res_of_option (load_cell m1 b) ;;
+                                  bv <- match c with CVal bv => Ok bv | CRef _ => Panic end ;;
+                                  d <- usub (b + v_bits COps bv / 8) a ;;
+                                  lb <- usub (v_bits COps bv) ((d * 8) mod USIZE) ;;
+                                  r <- load COps m1 b lb ;;
+                                  Ok (Some (b, r))
+                              | _ => Ok None
+                              end ;;
+                      m2 <- match vtw2 with
+                            | Some (b, r) => w <- res_of_option r ;; store_no_backref COps m1 b w
+                            | None => Ok m1
+                            end ;;
+                      store_no_backref COps m2 a v) = Ok m' /\ frame m m' /\
+            forall x, load_cell m' x =
+              store_nb (match load_cell m a with
+                        | Some (CRef b) => match load_cell m b with
+                                           | Some (CVal bv) => store_nb (load_cell m) b (subval (m_end m) bv 0 (a - b))
+                                           | _ => load_cell m end
+                        | _ => load_cell m end) a v x).
+  { intros _. cbn [bind].
     destruct (store_phases23 m m (load_cell m) a v (frame_refl m) (fun x => eq_refl)) as (m' & E' & F' & L'); try lia.
     { apply H2; reflexivity. }
-    exists m'. split; [exact E'|]. split; [exact F'|]. exact L'.
-  - destruct (I1 after b Eaf) as (bv & Eb & Hr1). rewrite Eb.
-    destruct (InvM_range m HM b bv Eb) as [Hb0 Hb64]. destruct (I2 b bv Eb) as [Hbw _].
-    pose proof Hbw as (Hbk1 & Hbbits & Hb63 & Hbr). cbn [v_bits COps]. rewrite Hbbits.
-    replace (8 * vk bv / 8) with (vk bv) by (rewrite Z.mul_comm, Z.div_mul; lia).
-    rewrite uadd_ok by lia. cbn [bind]. rewrite usub_ok by lia. cbn [bind]. rewrite umul_ok by lia. cbn [bind].
-    replace ((b + vk bv - after) * 8) with (8 * (b + vk bv - after)) by lia.
-    rewrite abs_load_l by (assumption || lia).
-    pose proof (load_spec_val m b bv (after - b) (b + vk bv - after) HM Eb ltac:(lia) ltac:(lia) ltac:(lia)) as LS.
-    replace (b + (after - b)) with after in LS by lia. rewrite LS. cbn [bind].
-    destruct (snb_spec m after (subval (m_end m) bv (after - b) (b + vk bv - after))) as (m1 & E1 & F1 & L1);
-      [rewrite vk_subval; lia|lia|rewrite vk_subval; lia|].
-    rewrite E1. cbn [bind].
-    destruct (store_phases23 m m1 (store_nb (load_cell m) after (subval (m_end m) bv (after - b) (b + vk bv - after))) a v F1 L1)
-      as (m' & E' & F' & L'); try lia.
-    { apply H2.
-      - unfold store_nb. destruct (Z.eqb_spec a after); [lia|]. destruct (Z.ltb_spec after a); [lia|]. reflexivity.
-      - intros y Hy. unfold store_nb. destruct (Z.eqb_spec y after); [lia|]. destruct (Z.ltb_spec after y); [lia|]. reflexivity. }
-    exists m'. split; [exact E'|]. split; [exact F'|]. exact L'.
-  - cbn [bind].
-    destruct (store_phases23 m m (load_cell m) a v (frame_refl m) (fun x => eq_refl)) as (m' & E' & F' & L'); try lia.
-    { apply H2; reflexivity. }
-    exists m'. split; [exact E'|]. split; [exact F'|]. exact L'.
+    exists m'. split; [exact E'|]. split; [exact F'|]. exact L'. }
+  destruct (Z.eqb_spec after USIZE) as [Etop|Ntop].
+  - (* the write ends exactly at the top: no cell after it *)
+    assert (Eaf: load_cell m after = None).
+    { destruct (load_cell m after) eqn:E; [|reflexivity]. exfalso.
+      assert (0 <= after < 2^64) by (apply HD; rewrite E; discriminate). unfold USIZE in Etop. lia. }
+    rewrite Eaf. apply SIMPLE. left. exact Eaf.
+  - assert (Haf: after < 2^64) by (unfold USIZE in Ntop; lia).
+    destruct (load_cell m after) as [[w|b]|] eqn:Eaf.
+    + apply SIMPLE. right. eauto.
+    + destruct (I1 after b Eaf) as (bv & Eb & Hr1). rewrite Eb.
+      destruct (InvM_range m HM b bv Eb) as [Hb0 Hb64]. destruct (I2 b bv Eb) as [Hbw _].
+      pose proof Hbw as (Hbk1 & Hbbits & Hb63 & Hbr). cbn [v_bits COps]. rewrite Hbbits.
+      replace (8 * vk bv / 8) with (vk bv) by (rewrite Z.mul_comm, Z.div_mul; lia).
+      rewrite usub_ok by lia. cbn [bind].
+      rewrite (Z.mod_small ((b + vk bv - after) * 8)) by (unfold USIZE; lia).
+      replace ((b + vk bv - after) * 8) with (8 * (b + vk bv - after)) by lia.
+      rewrite abs_load_l by (assumption || lia).
+      pose proof (load_spec_val m b bv (after - b) (b + vk bv - after) HM Eb ltac:(lia) ltac:(lia) ltac:(lia)) as LS.
+      replace (b + (after - b)) with after in LS by lia. rewrite LS. cbn [bind].
+      destruct (snb_spec m after (subval (m_end m) bv (after - b) (b + vk bv - after))) as (m1 & E1 & F1 & L1);
+        [rewrite vk_subval; lia|lia|rewrite vk_subval; lia|].
+      rewrite E1. cbn [bind].
+      destruct (store_phases23 m m1 (store_nb (load_cell m) after (subval (m_end m) bv (after - b) (b + vk bv - after))) a v F1 L1)
+        as (m' & E' & F' & L'); try lia.
+      { apply H2.
+        - unfold store_nb. destruct (Z.eqb_spec a after); [lia|]. destruct (Z.ltb_spec after a); [lia|]. reflexivity.
+        - intros y Hy. unfold store_nb. destruct (Z.eqb_spec y after); [lia|]. destruct (Z.ltb_spec after y); [lia|]. reflexivity. }
+      exists m'. split; [exact E'|]. split; [exact F'|]. exact L'.
+    + apply SIMPLE. left. reflexivity.
 Qed.
 
 (* ------------------------------------------------------------------ invariant preservation, abs_store *)
@@ -161,8 +191,8 @@ Qed.
 Lemma abs_ext e back (c c' : cells) : (forall x, c x = c' x) -> forall x, abs e back c x = abs e back c' x.
 Proof. intros H x. unfold abs. rewrite H. destruct (c' x) as [[v|b]|]; try reflexivity. rewrite H. reflexivity. Qed.
 
-Definition inb (x : Z) : Prop := 0 <= x < 2^64 - 1.
-Lemma store_nb_bound (c : cells) p w : (forall x, c x <> None -> inb x) -> 0 <= p -> p + vk w <= 2^64 - 1 -> 1 <= vk w ->
+Definition inb (x : Z) : Prop := 0 <= x < 2^64.
+Lemma store_nb_bound (c : cells) p w : (forall x, c x <> None -> inb x) -> 0 <= p -> p + vk w <= 2^64 -> 1 <= vk w ->
   forall x, store_nb c p w x <> None -> inb x.
 Proof.
   intros D Hp Hb Hk x. unfold store_nb, inb.
@@ -170,7 +200,7 @@ Proof.
 Qed.
 
 Lemma cstore_bound e (c : cells) a v :
-  Inv c -> (forall x, c x <> None -> inb x) -> 1 <= vk v -> 0 <= a -> a + vk v < 2^64 ->
+  Inv c -> (forall x, c x <> None -> inb x) -> 1 <= vk v -> 0 <= a -> a + vk v <= 2^64 ->
   forall x, cstore e c a v x <> None -> inb x.
 Proof.
   intros [I1 I2] D Hk Ha Hb. unfold cstore. set (after := a + vk v).
@@ -207,11 +237,11 @@ Proof.
 Qed.
 
 (* C08, store half at the level of the model: for every memory satisfying the invariant, every
-   address and every constant of k >= 1 bytes with a + k < 2^64, both endiannesses, any page
+   address and every constant of k >= 1 bytes with a + k <= 2^64, both endiannesses, any page
    crossing: `store` succeeds, the invariant is preserved, backing/endianness/permissions are
    untouched, and the byte array is updated by exactly "write these k bytes" *)
 Theorem abs_store_l (m : cmem) a v :
-  InvM m -> back_ok (m_back m) -> wfv v -> 0 <= a -> a + vk v < 2^64 ->
+  InvM m -> back_ok (m_back m) -> wfv v -> 0 <= a -> a + vk v <= 2^64 ->
   exists m', Paged.store COps m a v = Ok m' /\ InvM m' /\ frame m m' /\
      forall x, mabs m' x = store_spec (m_end m) (mabs m) a v x.
 Proof.
@@ -240,6 +270,15 @@ Qed.
 Lemma set_permissions_cells (m : cmem) a len p m' : set_permissions m a len p = Ok m' ->
   (forall x, load_cell m' x = load_cell m x) /\ m_back m' = m_back m /\ m_end m' = m_end m.
 Proof. unfold set_permissions. intros E. apply bind_ok in E as (t & _ & E). eapply set_perm_loop_cells, E. Qed.
+
+(* a write reaching beyond 2^64 is rejected (no panic) *)
+Lemma store_wrap_err (m : cmem) a v : cbits v mod 8 = 0 -> cbits v <> 0 -> 2^64 < a + vk v ->
+  Paged.store COps m a v = Err ECustom.
+Proof.
+  intros H8 H0 Hw. unfold Paged.store. cbn [v_bits COps].
+  destruct (Z.eqb_spec (cbits v mod 8) 0); [|lia]. destruct (Z.eqb_spec (cbits v) 0); [lia|]. cbn [negb orb].
+  fold (vk v). unfold USIZE. destruct (Z.ltb_spec (2^64) (a + vk v)); [reflexivity|lia].
+Qed.
 
 Inductive mop := MStore (a : Z) (v : const) | MSetPerm (a len : Z) (p : perm).
 (* a store the implementation rejects (bad width) leaves the memory as it was *)
@@ -270,13 +309,10 @@ Proof.
       { unfold wfv, vk. assert (0 <= cbits v). { destruct (Z_lt_le_dec (cbits v) 0) as [Hn|]; [|assumption].
           rewrite (Z.pow_neg_r 2 (cbits v)) in Hr by assumption. lia. }
         replace (8 * (cbits v / 8)) with (cbits v) by lia. repeat split; lia. }
-      destruct (Z_lt_le_dec (a + vk v) (2^64)) as [Hlt|Hge].
-      * destruct (abs_store_l m a v HM Hbk Hv Ha Hlt) as (m1 & E1 & HM1 & (F1 & _) & _).
+      destruct (Z_le_gt_dec (a + vk v) (2^64)) as [Hle|Hgt].
+      * destruct (abs_store_l m a v HM Hbk Hv Ha Hle) as (m1 & E1 & HM1 & (F1 & _) & _).
         rewrite E1 in E. injection E as <-. split; [assumption|]. rewrite F1. assumption.
-      * exfalso. unfold Paged.store in E. cbn [v_bits COps] in E.
-        destruct (Z.eqb_spec (cbits v mod 8) 0); [|lia]. destruct (Z.eqb_spec (cbits v) 0); [lia|]. cbn [negb orb] in E.
-        unfold uadd in E. fold (vk v) in E. unfold USIZE in E.
-        destruct (Z.ltb_spec (a + vk v) (2^64)); [lia|]. cbn [bind] in E. discriminate.
+      * rewrite (store_wrap_err m a v) in E by (assumption || lia). injection E as <-. split; assumption.
     + rewrite store_bad_width in E by lia. injection E as <-. split; assumption.
   - destruct (set_permissions_cells m a len p m' E) as (L & B1 & B2). destruct HM as [HI HD]. split.
     + split; [apply (Inv_ext (load_cell m)); [intros x; symmetry; apply L|exact HI]|].
